@@ -439,8 +439,20 @@ func NewClient(config *ClientConfig) (c *Client) {
 		config.PluginLogBufferSize = defaultPluginLogBufferSize
 	}
 
+	// The client works on a copy of the configuration: Start records the
+	// outcome of the version negotiation in it (the legacy Plugins folded into
+	// VersionedPlugins, the negotiated set in Plugins), and the caller may use
+	// the same value again for another client.
+	cfg := *config
+	if config.VersionedPlugins != nil {
+		cfg.VersionedPlugins = make(map[int]PluginSet, len(config.VersionedPlugins))
+		for v, set := range config.VersionedPlugins {
+			cfg.VersionedPlugins[v] = set
+		}
+	}
+
 	c = &Client{
-		config: config,
+		config: &cfg,
 		logger: config.Logger,
 	}
 	if config.Managed {
